@@ -116,6 +116,16 @@ def print_assumptions(vfile):
     return res, out
 
 
+def axiom_note(name):
+    if name in STD_AXIOMS:
+        return STD_AXIOMS[name]
+    if name.startswith("FloatAxioms."):
+        return "Coq standard library (FloatAxioms: specification of the primitive floats)"
+    if "." not in name or name.startswith(("PrimInt63.", "PrimFloat.", "Uint63.")):
+        return "Coq primitive float / int63 type or operation (kernel primitive, listed by Print Assumptions)"
+    return "Coq standard library"
+
+
 def theorems_in(vfile):
     text = open(os.path.join(COQ, vfile)).read()
     return re.findall(r"^\s*(?:Theorem|Corollary)\s+([A-Za-z0-9_']+)", text, flags=re.M)
